@@ -2,9 +2,13 @@ package main
 
 import (
 	"bytes"
+	"context"
+	"encoding/json"
 	"fmt"
 	"os"
+	"os/exec"
 	"path/filepath"
+	"runtime/debug"
 	"strings"
 	"time"
 
@@ -233,5 +237,71 @@ func corrCrash(seed uint64, n int, tier string, out string, replay string) {
 		chartutil.ProcessDependencies(c, map[string]any{})
 	})
 	report("import-values-witness", res, map[string]any{"import-values": []any{map[string]any{"child": 1, "parent": "p"}}}, "C20:import-values-type-assertion", -1)
+	// recursion that no recover can catch (a Go stack overflow is fatal): run in a child process
+	fatalProbes(rep, tmp, seed)
 	rep.Write(out, nil)
+}
+
+// ---- probes that could end in a fatal error (stack exhaustion, out of memory): child processes ----
+
+type fatalProbe struct {
+	Name      string            `json:"name"`
+	Templates map[string]string `json:"templates"`
+	Values    map[string]any    `json:"values"`
+}
+
+func init() { subs["crashchild"] = crashChild }
+
+// crashChild renders the probe given in the replay argument and says that it returned.
+func crashChild(seed uint64, n int, tier string, out string, replay string) {
+	debug.SetMaxStack(96 << 20) // a runaway recursion ends in seconds instead of filling a gigabyte
+	var p fatalProbe
+	b, _ := os.ReadFile(replay)
+	json.Unmarshal(b, &p)
+	c := &chart.Chart{Metadata: &chart.Metadata{APIVersion: "v2", Name: "p", Version: "0.1.0"}}
+	for name, data := range p.Templates {
+		c.Templates = append(c.Templates, &chart.File{Name: name, Data: []byte(data)})
+	}
+	vals, err := chartutil.ToRenderValues(c, p.Values, chartutil.ReleaseOptions{Name: "r", Namespace: "n"}, nil)
+	if err == nil {
+		_, err = engine.Render(c, vals)
+	}
+	fmt.Printf("RETURNED err=%v\n", err != nil)
+}
+
+func fatalProbes(rep *Report, tmp string, seed uint64) {
+	deep := func(n int) map[string]any {
+		m := map[string]any{"leaf": "x"}
+		for i := 0; i < n; i++ {
+			m = map[string]any{"n": m}
+		}
+		return m
+	}
+	probes := []fatalProbe{
+		{Name: "include-self", Templates: map[string]string{"templates/a.yaml": `{{ define "loop" }}{{ include "loop" . }}{{ end }}v: {{ include "loop" . }}`}},
+		{Name: "include-tpl-include", Templates: map[string]string{"templates/a.yaml": `{{ define "loop" }}{{ tpl .Values.text . }}{{ end }}v: {{ include "loop" . }}`}, Values: map[string]any{"text": `{{ include "loop" . }}`}},
+		{Name: "tpl-self", Templates: map[string]string{"templates/a.yaml": `v: {{ tpl .Values.text . }}`}, Values: map[string]any{"text": `{{ tpl .Values.text . }}`}},
+		{Name: "two-templates-mutual", Templates: map[string]string{"templates/a.yaml": `{{ define "a" }}{{ include "b" . }}{{ end }}{{ define "b" }}{{ tpl "{{ include \"a\" . }}" . }}{{ end }}v: {{ include "a" . }}`}},
+		{Name: "deep-values-toYaml", Templates: map[string]string{"templates/a.yaml": `v: {{ toYaml .Values | nindent 2 }}`}, Values: deep(3000)},
+	}
+	self, _ := os.Executable()
+	for _, p := range probes {
+		f := filepath.Join(tmp, "probe-"+p.Name+".json")
+		b, _ := json.Marshal(p)
+		os.WriteFile(f, b, 0o644)
+		ctx, cancel := context.WithTimeout(context.Background(), 120*time.Second)
+		cmd := exec.CommandContext(ctx, self, "crashchild", "-replay", f)
+		outb, err := cmd.CombinedOutput()
+		cancel()
+		returned := strings.Contains(string(outb), "RETURNED err=")
+		rep.H("fatal-probe:" + p.Name + ":" + map[bool]string{true: "returned", false: "DIED"}[returned && err == nil])
+		rep.Count(map[string]any{"fatal-probe": p.Name}, true)
+		if !returned || err != nil {
+			tail := string(outb)
+			if i := strings.Index(tail, "fatal error"); i >= 0 {
+				tail = tail[i:]
+			}
+			rep.Issue(Issue{Kind: "monitor", Fingerprint: "C20:fatal:" + p.Name, What: "rendering did not return: the process died (" + fmt.Sprint(err) + "): " + trunc(tail, 200), Case: p.Name, Seed: seed, Index: -1})
+		}
+	}
 }
